@@ -289,7 +289,8 @@ def run_line(state, sx):
 
 
 def compare(case, i, line, ir, mr):
-    if proto.same_reply(ir, mr):
+    # type-strict: no operation of the table API may turn an int cell into a float (or back); I:1 and F:1.0 differ
+    if proto.same_reply(ir, mr, numeric=False):
         return None
     if mr == 'bad-op' or ir == 'bad-op':
         return ('divergence', 'outside the modelled universe: implementation %s, model %s' % (ir[:200], mr[:200]))
@@ -300,7 +301,7 @@ def compare(case, i, line, ir, mr):
         return "malformed reply: implementation %s, model %s" % (ir[:200], mr[:200])
     oa, ob = a[1], b[1]
     try:
-        same_heap = proto.canon(a[2]) == proto.canon(b[2])
+        same_heap = proto.canon(a[2], False) == proto.canon(b[2], False)
     except Exception:
         # e.g. a column whose name is the empty string (only produced when cells end up as column names)
         return 'tables differ after the operation (a dump cannot be canonicalised): implementation %s, model %s' % (
@@ -311,6 +312,8 @@ def compare(case, i, line, ir, mr):
         return ('divergence', 'both raise, kinds differ: implementation %s, model %s' % (oa[1], ob[1]))
     if not same_heap:
         return 'tables differ after the operation: implementation %s, model %s' % (proto.render(a[2])[:300], proto.render(b[2])[:300])
+    if proto.canon(oa, False) == proto.canon(ob, False):
+        return None
     return 'outcome differs: implementation %s, model %s' % (proto.render(oa)[:200], proto.render(ob)[:200])
 
 
